@@ -130,9 +130,6 @@ def lraExec (n : Net) (op : String) (args : List String) : Option (String × Net
   | "nvl" | "nvlraw" => (runP linexp args).bind fun a =>
       if !linOk t.nVars a then none
       else if a.vars.isEmpty || !n.sat.rootLevel then some ("pre", n)
-      -- `new_var(lin)` stores the expression as a row as it is: with a basic variable in it the tableau is
-      -- ill-formed (finding nvl-basic); `nvl` refuses such requests, `nvlraw` passes them on
-      else if op == "nvl" && a.vars.any (fun e => t.isBasic e.1) then some ("pre:basic", n)
       else match n.lraNewVarLin a with
         | some (v, n') => some (toString v, n')
         | none => some ("assert", n)
